@@ -26,10 +26,35 @@ R_PP = "vf.props.C04:concrete_pp"
 BUILTIN = sorted(n for n in vars(Mixtures) if isinstance(getattr(Mixtures, n), pv.Mixture))
 
 
+def _named_mixture(name):
+    """built-in mixture, its relabelled twin (`<name>_mirrored`: components and parameters exchanged) or a synthetic one in which one
+    component has no separate interaction surface parameter (q' = q)"""
+    import copy
+    if name in BUILTIN:
+        return getattr(Mixtures, name)
+    if name.endswith("_mirrored"):
+        from .C06 import swapped_mixture
+        m = swapped_mixture(getattr(Mixtures, name[:-9]))
+        m.name = name
+        return m
+    if name.startswith("synthetic_"):
+        base = Mixtures.H2O_EtOH
+        c1, c2 = copy.deepcopy(base.first_component), copy.deepcopy(base.second_component)
+        if name.endswith("q1"):
+            c1.uniquac_constants.q_interaction = c1.uniquac_constants.q_geometric
+        else:
+            c2.uniquac_constants.q_interaction = c2.uniquac_constants.q_geometric
+        return pv.Mixture(name=name, first_component=c1, second_component=c2, nrtl_params=base.nrtl_params, uniquac_params=base.uniquac_params)
+    raise KeyError(name)
+
+
+UNIQUAC_SETS = BUILTIN + [n + "_mirrored" for n in BUILTIN] + ["synthetic_q1", "synthetic_q2"]
+
+
 def _fmix(inp):
     """real float mixture from replay inputs"""
-    if inp.get("mixture") in BUILTIN:
-        base = getattr(Mixtures, inp["mixture"])
+    if inp.get("mixture") in UNIQUAC_SETS:
+        base = _named_mixture(inp["mixture"])
     else:
         base = Mixtures.H2O_EtOH
     nrtl = base.nrtl_params
@@ -193,19 +218,19 @@ def _uniquac_known_deviation(mix, T, x):
 
 
 def uniquac(job, names=None):
-    job.bound(uniquac_component_constants="exact values of the built-in mixtures: %s" % ",".join(names or BUILTIN))
+    job.bound(uniquac_component_constants="exact constants of the 8 built-in mixtures, of their relabelled twins and of 2 synthetic sets with q' = q for one component")
     job.assume("0 < x < 1, 273 < T < 400", "UNIQUAC alpha/beta/z symbolic (tau = EXP atoms > 0)")
     T, x = real("T"), real("x")
     for name in names or BUILTIN:
         tag = "C04/uniquac/%s" % name
-        mix = build.lift_obj(getattr(Mixtures, name))
+        mix = build.lift_obj(_named_mixture(name))
         up = mix.uniquac_params
         exact = {k: getattr(up, k) for k in ("alpha_12", "alpha_21", "beta_12", "beta_21", "z")}
         up.alpha_12, up.alpha_21, up.beta_12, up.beta_21, up.z = real("ua12"), real("ua21"), real("ub12"), real("ub21"), real("uz")
         dom = build.domain_T(T) + build.domain_open01(x) + [up.z.t > 0]
         inputs = {"model": "UNIQUAC", "mixture": name, "T": T.t, "x": x.t, "ua12": up.alpha_12.t, "ua21": up.alpha_21.t,
                   "ub12": up.beta_12.t, "ub21": up.beta_21.t, "z": 10}
-        base = getattr(Mixtures, name).uniquac_params
+        base = _named_mixture(name).uniquac_params
         fb = [{"ua12": base.alpha_12, "ua21": base.alpha_21, "ub12": base.beta_12, "ub21": base.beta_21, "z": base.z, "T": 333.15, "x": 0.35},
               {"ua12": base.alpha_12, "ua21": base.alpha_21, "ub12": base.beta_12, "ub21": base.beta_21, "z": base.z, "T": 300.0, "x": 0.7}]
         k = 0
@@ -234,7 +259,7 @@ def uniquac(job, names=None):
             job.prove(tag + "/pure_2", [], terms.subst(lift(g2), [(x.t, z3.RealVal(0))]) != 1, R_PP, inputs)
             for pt in fb:
                 env = {"T": pt["T"], "x": pt["x"], "ua12": pt["ua12"], "ua21": pt["ua21"], "ub12": pt["ub12"], "ub21": pt["ub21"], "uz": float(pt["z"])}
-                want = mixmod.calculate_activity_coefficients(pt["T"], getattr(Mixtures, name), mixmod.Composition(pt["x"], "molar"), "UNIQUAC")
+                want = mixmod.calculate_activity_coefficients(pt["T"], _named_mixture(name), mixmod.Composition(pt["x"], "molar"), "UNIQUAC")
                 got = (terms.evaluate(lift(g1), env), terms.evaluate(lift(g2), env))
                 job.validated(tag, close(want[0], got[0], 1e-9) and close(want[1], got[1], 1e-9), "%r vs %r" % (want, got))
         if k == 0:
@@ -283,6 +308,6 @@ def pressures(job):
 
 def jobs(tier):
     js = [("nrtl", "nrtl", {}), ("pressures", "pressures", {})]
-    for name in BUILTIN:
+    for name in UNIQUAC_SETS:
         js.append(("uniquac_" + name, "uniquac", {"names": [name]}))
     return js
